@@ -21,7 +21,9 @@ LEVEL = 'exploration'
 RULE = ('Archives of 0..5 members (duplicate names, sizes 0..200 odd and even, content over a header-look-alike alphabet, '
         'with/without final newline, maximal-width header fields, GNU "name/" and bare name styles) x interleaved '
         'histories of <= 40 calls of read()/read(n)/readline()/readline(n)/readlines()/seek(p,0|1|2)/tell() across members, '
-        'in fileobj= and filename= mode.  Non-trivial: >= 2 members, history touches >= 2 of them and contains a readline* '
+        'in fileobj= and filename= mode; object lifetimes around the history: the ArFile object dropped (and collected) before the '
+        'members are read, members close()d or merely dropped afterwards, one path per process rewritten with each next archive, '
+        'a second ArFile on the same path whose members are read alternately with the first.  Non-trivial: >= 2 members, history touches >= 2 of them and contains a readline* '
         'or a seek followed by a read.')
 ASSUMPTIONS = ['only the compared interface of the statement: read(n>=1)/read(), readline(n>=1)/readline(), readlines(), seek with '
                'non-negative targets, tell(); read(0) (documented "all"), readlines(hint), seek return values, __iter__ excluded',
@@ -30,8 +32,12 @@ ANCHORS = ['debian.arfile:ArFile.__collect_members', 'debian.arfile:ArMember.fro
            'debian.arfile:ArMember.readline', 'debian.arfile:ArMember.readlines', 'debian.arfile:ArMember.seek',
            'debian.arfile:ArMember.tell', 'debian.arfile:ArFile.getmember']
 MUST_REACH = ANCHORS
-FLOORS = {'quick': {'nontrivial': 800, 'monitors': {'M.op': 30000, 'K9': 10000, 'M.listing': 1000}},
-          'thorough': {'nontrivial': 40000, 'monitors': {'M.op': 1500000, 'K9': 500000, 'M.listing': 50000}}}
+FLOORS = {'quick': {'nontrivial': 800, 'monitors': {'M.op': 30000, 'K9': 10000, 'M.listing': 1000},
+                    'counters': {'archive-object-dropped-before-reads': 2400, 'filename:members-dropped-unclosed': 1300,
+                                 'filename:path_reuse': 1300, 'filename:twin': 650, 'op-through-twin': 4000}},
+          'thorough': {'nontrivial': 40000, 'monitors': {'M.op': 1500000, 'K9': 500000, 'M.listing': 50000},
+                       'counters': {'archive-object-dropped-before-reads': 120000, 'filename:members-dropped-unclosed': 65000,
+                                    'filename:path_reuse': 65000, 'filename:twin': 32000, 'op-through-twin': 200000}}}
 LEVEL_TEXT = ('Runtime monitoring: seeded interleaved operation histories on live ArMember objects, each result compared with an '
               'io.BytesIO shadow of the member data the harness itself packed; listing/metadata/getmember compared with the '
               'packed table; private-offset invariant (K9) after every read/readline.  Held-on-observed over the histories run.')
@@ -124,8 +130,17 @@ def cases(ctx):
         nm = r.choice([0, 1, 2, 2, 3, 3, 4, 5])
         names = r.sample(NAMES, r.randint(1, len(NAMES)))
         members = [gen_member(r, names) for _ in range(nm)]
-        yield {'kind': 'hist', 'members': members, 'style': r.choice(['gnu', 'bare']),
-               'mode': r.choice(['fileobj', 'fileobj', 'filename']), 'ops': gen_ops(r, members, r.randint(3, 40))}
+        case = {'kind': 'hist', 'members': members, 'style': r.choice(['gnu', 'bare']),
+                'mode': r.choice(['fileobj', 'fileobj', 'filename']), 'ops': gen_ops(r, members, r.randint(3, 40))}
+        # object lifetimes and file-name reuse (none of this is an operation of the statement; all of it is ordinary use):
+        # the archive object dropped while its members are still read; members never close()d, only dropped; the same
+        # path rewritten with the next archive; a second ArFile on the same path read alternately with the first
+        case['drop_ar'] = r.random() < .3
+        if case['mode'] == 'filename':
+            case['path_reuse'] = r.random() < .5
+            case['close'] = r.random() < .5
+            case['twin'] = r.random() < .25
+        yield case
 
 
 # --------------------------------------------------------------------------
@@ -169,6 +184,9 @@ def finish(ctx):
 
 # --------------------------------------------------------------------------
 
+_DIR = []
+
+
 def run_case(ctx, case):
     from debian import arfile
     from .. import probes
@@ -179,31 +197,45 @@ def run_case(ctx, case):
     raw = build_ar(members, case['style'])
     tf = None
     path = None
+    holder = {'ars': [], 'live': []}
     try:
         if case['mode'] == 'fileobj':
             tf = probes.TracingFile(io.BytesIO(raw))
-            ar = arfile.ArFile(fileobj=tf)
+            holder['ars'].append(arfile.ArFile(fileobj=tf))
         else:
-            d = ctx.tmpdir()
-            path = os.path.join(d, 'c%d.ar' % ctx.evaluations)
+            if not _DIR:
+                _DIR.append(ctx.tmpdir())       # one directory per process: 'reused.ar' really is the same path every time
+            d = _DIR[0]
+            # a path of its own, or ONE path per process that every such case rewrites with its own archive
+            path = os.path.join(d, 'reused.ar' if case.get('path_reuse') else 'c%d.ar' % ctx.evaluations)
             with open(path, 'wb') as f:
                 f.write(raw)
-            ar = arfile.ArFile(filename=path)
-        _history(ctx, case, ar, members, ops, raw, tf)
+            holder['ars'].append(arfile.ArFile(filename=path))
+            if case.get('twin'):
+                holder['ars'].append(arfile.ArFile(filename=path))
+            for k in ('path_reuse', 'twin'):
+                if case.get(k):
+                    ctx.count('filename:' + k)
+            ctx.count('filename:members-%s' % ('closed' if case.get('close', True) else 'dropped-unclosed'))
+        _history(ctx, case, holder, members, ops, raw, tf)
     finally:
         if path:
-            try:
-                for m in ar.getmembers():
-                    m.close()
-            except Exception:
-                pass
-            try:
-                os.unlink(path)
-            except OSError:
-                pass
+            if case.get('close', True):
+                try:
+                    for m in holder['live']:
+                        m.close()
+                except Exception:
+                    pass
+            holder.clear()
+            if not case.get('path_reuse'):
+                try:
+                    os.unlink(path)
+                except OSError:
+                    pass
 
 
-def _history(ctx, case, ar, members, ops, raw, tf):
+def _history(ctx, case, holder, members, ops, raw, tf):
+    ar = holder['ars'][0]
     # --- listing / metadata / lookup
     ctx.mon('M.listing')
     names = [m['name'] for m in members]
@@ -231,7 +263,24 @@ def _history(ctx, case, ar, members, ops, raw, tf):
     except KeyError:
         pass
     # --- operation history against BytesIO shadows
-    shadows = [io.BytesIO(m['data'].encode('latin-1')) for m in members]
+    nm = len(members)
+    twin = len(holder['ars']) > 1
+    if twin:
+        live = live + holder['ars'][1].getmembers()
+        if len(live) != 2 * nm:
+            ctx.violation('listing-differs', 'second ArFile on the same path lists %d members, packed %d' % (len(live) - nm, nm))
+            return
+    holder['live'] = live
+    if case.get('drop_ar'):
+        # the members outlive the archive object they came from
+        del ar
+        del holder['ars'][:]
+        import gc
+        gc.collect()
+        ctx.count('archive-object-dropped-before-reads')
+    shadows = [io.BytesIO(m['data'].encode('latin-1')) for m in members] * (2 if twin else 1)
+    if twin:
+        shadows = [io.BytesIO(m['data'].encode('latin-1')) for m in members + members]
     offsets = []
     pos = 8
     for m in members:
@@ -249,8 +298,11 @@ def _history(ctx, case, ar, members, ops, raw, tf):
         if prev is not None:
             adj.add('%s->%s/%s' % (prev[1], kind, 'same-member' if prev[0] == i else 'other-member'))
         prev = (i, kind)
+        if twin and (step + i) % 3 == 0:
+            i += nm                 # the same member through the second ArFile on that path
+            ctx.count('op-through-twin')
         m, sh = live[i], shadows[i]
-        touched.add(i)
+        touched.add(i % nm)
         ctx.count('op:' + kind)
         ctx.mon('M.op')
         before = sh.tell()
@@ -283,7 +335,7 @@ def _history(ctx, case, ar, members, ops, raw, tf):
             raise ValueError(kind)
         last_was_seek[i] = kind in ('seek', 'seek_back')
         if got != want:
-            size = len(members[i]['data'])
+            size = len(members[i % nm]['data'])
             flat = b''.join(got) if isinstance(got, list) else got
             if isinstance(flat, bytes) and before + len(flat) > max(size, before) :
                 key = 'returns-bytes-outside-member'
@@ -294,8 +346,8 @@ def _history(ctx, case, ar, members, ops, raw, tf):
             return
         # T: what was handed out is exactly the archive bytes of that member at that position
         if isinstance(got, bytes) and got:
-            a = offsets[i] + before
-            if raw[a:a + len(got)] != got or before + len(got) > len(members[i]['data']):
+            a = offsets[i % nm] + before
+            if raw[a:a + len(got)] != got or before + len(got) > len(members[i % nm]['data']):
                 ctx.violation('returns-bytes-outside-member', 'step %d op %r' % (step, op))
                 return
         mt, st = m.tell(), sh.tell()
